@@ -101,10 +101,11 @@ func (o *OracleC09) AtEnd(s *Sim) {
 			// live nodes are commit-locked on one proposal while others hold the other,
 			// so neither M commits nor M change-view requests can ever be collected.
 			class := "no_progress_after_faults_stopped"
-			var minH uint32 = ^uint32(0)
+			// the height the cluster is stuck at: the one right above the highest ledger tip
+			var minH uint32
 			for _, m := range o.live() {
-				if m.d != nil && m.d.BlockIndex < minH {
-					minH = m.d.BlockIndex
+				if m.tip().Idx+1 > minH {
+					minH = m.tip().Idx + 1
 				}
 			}
 			props := map[Hash]bool{}
